@@ -174,7 +174,8 @@ def rand_type(rng, nm, doc, enum_p=0.25):
     if doc.enums and rng.random() < enum_p:
         return am.ColType('enum', enum=rng.randrange(len(doc.enums)))
     k = rng.choice(['plain', 'plain', 'plain', 'args', 'args', 'array', 'dotted', 'quoted', 'qarray'])
-    base = rng.choice(['int', 'integer', 'varchar', 'text', 'timestamp', 'decimal', 'bool', 'uuid', 'jsonb'])
+    base = rng.choice(['int', 'integer', 'varchar', 'text', 'timestamp', 'decimal', 'bool', 'uuid', 'jsonb', 'serial', 'bigserial', 'smallserial',
+                       'serial4', 'SERIAL', 'int4', 'money'])
     if k == 'plain':
         return am.ColType('plain', base)
     if k == 'args':
@@ -356,6 +357,23 @@ def random_doc(rng, size='small', text_profile='plain', flavours=CORE_FLAVOURS, 
         p.note = maybe(0.5, lambda: tx.note('pn'))
         p.comment = maybe(0.3 if comments else 0, lambda: tx.comment())
         doc.project = p
+    if coin:
+        # an enum called exactly like a table of the same schema (different kinds of element, no clash)
+        if doc.enums and rng.random() < 0.06:
+            e, t = rng.choice(doc.enums), rng.choice(doc.tables)
+            if not any(x is not e and (x.schema, x.name) == (t.schema, t.name) for x in doc.enums):
+                e.schema, e.name = t.schema, t.name
+                doc.classes.add('enum-named-like-table')
+        # a schema-qualified enum whose (quoted) name contains a dot
+        for e in doc.enums:
+            if e.schema != 'public' and '.' not in e.name and rng.random() < 0.04:
+                e.name = e.name + '.dotted'
+                doc.classes.add('dotted-enum-name')
+        # a second index flagged pk in the same table
+        for t in doc.tables:
+            if any(ix.pk for ix in t.indexes) and len(t.columns) >= 2 and rng.random() < 0.15:
+                t.indexes.append(am.Index([('col', t.columns[-1].name)], pk=True))
+                doc.classes.add('two-pk-indexes')
     doc.default_order()
     rng.shuffle(doc.order)
     doc.classes |= nm.classes
